@@ -21,6 +21,7 @@ Decides:
                 (never in a closure that could feed a value).
  D context free  while the item list is built it is only appended to / measured / rolled back: the meaning of a word never depends on the items
                 produced for its neighbours (no last()/first_mut()/indexing in State::construct / disambiguate_short).
+ L value cut      the value half of `-nVALUE=..` / `--name=VALUE` is cut out of the raw elements of the word (os_from_vec), never out of a decoded String.
 Does not decide: that split_os_argument as a whole is a correct transducer for every byte string."""
 import re
 from core import *
